@@ -793,8 +793,12 @@ def gen_dup_names(tier):
                         for i in range(k):
                             new = S('dup', tlist[i])
                             P('p', values=[i], parent=new)
-                            with h.quiet():
-                                holder.sections[1 + i] = new         # item assignment does not check names
+                            # item assignment on the child list does not check names on the original tree
+                            if h.call(holder.sections.__setitem__, 1 + i, new)[0] == 'exc':
+                                old = _secs(holder)[1 + i]           # refused: force the placeholder instead
+                                P('p', values=[i], parent=old)
+                                old._name = 'dup'
+                                setattr_q(old, 'type', tlist[i])
                     yield ('sections', k, types, how, where), doc
         for how in ('public-properties[i]=', 'private-_name'):
             for where in ('top', 'nested'):
@@ -808,8 +812,8 @@ def gen_dup_names(tier):
                         p._name = 'dup'
                 if how != 'private-_name':
                     for i in range(k):
-                        with h.quiet():
-                            holder.properties[1 + i] = odml.Property('dup', values=['v%d' % i])
+                        if h.call(holder.properties.__setitem__, 1 + i, P('dup', values=['v%d' % i]))[0] == 'exc':
+                            _props(holder)[1 + i]._name = 'dup'      # refused: force the placeholder instead
                 S('dup', parent=holder)                                # a Section of that name is no clash
                 yield ('properties', k, how, where), doc
 
@@ -919,8 +923,30 @@ def gen_mixed(tier, seed):
 
 # ---------------------------------------------------------------------------------------------
 
+class ClassCapped(h.Collector):
+    """Collector that keeps at most `per_class` failures of one (check, cls): the list of failures is capped
+    globally, and every failing class has to be visible in it. Dropped repetitions are counted in the result."""
+    per_class = 10
+
+    def __init__(self, *a, **kw):
+        super(ClassCapped, self).__init__(*a, **kw)
+        self._seen = collections.Counter()
+
+    def fail(self, check, cls, witness, detail):
+        key = (check, tuple(sorted(cls.items())))
+        self._seen[key] += 1
+        if self._seen[key] <= self.per_class:
+            super(ClassCapped, self).fail(check, cls, witness, detail)
+
+    def result(self):
+        res = super(ClassCapped, self).result()
+        res['failures_per_class'] = [{'check': k[0], 'cls': dict(k[1]), 'count': n}
+                                     for k, n in sorted(self._seen.items())]
+        return res
+
+
 def run_rules(tier, seed):
-    col = h.Collector(
+    col = ClassCapped(
         NAME,
         rule='one case = one validation run (Document.validate() on a document, Validation(obj) on a Section or '
              'Property, attached or as parentless keep_id clone) of one constructed object graph; graphs: harness.gen_docs '
